@@ -44,6 +44,9 @@ OPTIONS = {
     "strict": ('<a tal:condition="False" tal:content="][">z</a>', {}, True, False),
     "tokenizer": ("<a>@@</a>", {}, False, True),
     "expression_types(partial)": ('<p tal:content="fmt:Hello ${name}!">x</p>', {"name": "World"}, "upper", "lower"),
+    # names of extra builtins whose concatenations coincide
+    "extra_builtins(names)": ("<p>${ab | 'no-ab'} ${c | 'no-c'} ${a | 'no-a'} ${bc | 'no-bc'} ${abc | 'no-abc'}</p>", {}, "ab|c", "a|bc"),
+    "extra_builtins(names 2)": ("<p>${ab | 'no-ab'} ${c | 'no-c'} ${a | 'no-a'} ${bc | 'no-bc'} ${abc | 'no-abc'}</p>", {}, "abc", "a|bc"),
 }
 
 
@@ -77,6 +80,8 @@ def case_for(option, value, body, kwargs, cls="PageTemplate", filename=None):
         opts = {"_tokenizer": True} if value else {}
     elif option == "expression_types(partial)":
         opts = {"_exprtype": value}
+    elif option is not None and option.startswith("extra_builtins(names"):
+        opts = {"_xb": value}
     elif option is not None:
         opts = {option: value}
     return {"cls": cls, "body": body, "options": opts, "kwargs": kwargs, "filename": filename}
@@ -365,10 +370,66 @@ def sched_part(ctx, quick, rnd):
         ctx.sample({"schedule": _fmt(sample[-1]["sched"])})
 
 
+def storage_part(ctx, quick):
+    """the storage runs out while a module is stored (file size limit of n bytes on the writing process, writes beyond
+    it fail): whatever the writer leaves behind, a later process without the limit renders as without a cache"""
+    body = BODY + "<!-- " + "x" * 3000 + " -->"
+    case = {"cls": "PageTemplate", "body": body, "options": {}, "kwargs": KW}
+    small = {"cls": "PageTemplate", "body": "<p>Hello, world.</p>", "options": {}, "kwargs": {}}
+    rc, base, err = run_driver(None, {"cases": [case, small]})
+    if len(base) != 2:
+        ctx.fail("storage part: reference render failed: %s" % err)
+        return
+    limits = [1, 40, 64, 200, 1000, 2500, 4096, 5000, 8192] if quick else [1, 10, 40, 64, 100, 200, 500, 1000, 2000, 2500, 3000, 4096, 5000, 6000, 8192, 12000]
+    n = 0
+    for lim in limits:
+        d = tempfile.mkdtemp(prefix="c15s_")
+        try:
+            run_driver(d, {"cases": [case, small], "fsize_limit": lim})
+            # (a) what stands under a final name is a complete module
+            for fn in sorted(os.listdir(d)):
+                if fn.endswith(".py"):
+                    src = open(os.path.join(d, fn), "rb").read()
+                    try:
+                        compile(src, fn, "exec")
+                        complete = b"def initialize" in src
+                    except SyntaxError:
+                        complete = False
+                    if not complete:
+                        ctx.violation("storage ran out at %d bytes while a writer stored modules: the entry %s (%d bytes) is not a complete "
+                                      "module" % (lim, fn, len(src)), dict(kind="cache-storage", limit=lim))
+                        return
+            # (b) a later process renders as without a cache
+            rc2, outs, err2 = run_driver(d, {"cases": [case, small]})
+            n += 2
+            if outs != base:
+                pyc = os.path.join(d, "__pycache__")
+                truncated = []
+                for fn in (sorted(os.listdir(pyc)) if os.path.isdir(pyc) else []):
+                    import marshal
+                    data = open(os.path.join(pyc, fn), "rb").read()
+                    try:
+                        marshal.loads(data[16:])
+                    except Exception:   # noqa
+                        truncated.append(fn)
+                known = [f for f in ctx.known() if f.get("kind") == "pyc-truncated-when-storage-runs-out"]
+                if truncated and known and all(o == b or "exc" in o for o, b in zip(outs, base)):
+                    ctx.known_finding(known[0], "limit %d bytes: %s under __pycache__ is truncated; a later process gets %s" % (lim, truncated, outs[-1]))
+                    continue
+                ctx.violation("storage ran out at %d bytes while a writer stored modules; a later process renders %s, without a cache %s "
+                              "(directory: %s)" % (lim, str(outs)[:300], str(base)[:300], sorted(os.listdir(d))), dict(kind="cache-storage", limit=lim))
+                return
+        finally:
+            shutil.rmtree(d, ignore_errors=True)
+    ctx.replays += n
+    ctx.notes["storage_limits"] = limits
+
+
 def run(ctx):
     rnd = random.Random(ctx.seed)
     quick = ctx.tier == "quick"
     key_part(ctx)
+    storage_part(ctx, quick)
     sched_part(ctx, quick, rnd)
     for f in ctx.known():
         ctx.witness(f)
